@@ -23,6 +23,10 @@ static inline cstr cstr_null(void) { cstr c; c.isnull = 1; c.id = 0; c.len = 0; 
 /* equality of the text a C string denotes (null == empty, as QString::fromUtf8/QByteArray(const char*) treat them) */
 #define CSTR_SAME_TEXT(a, b) (((a).len == 0 && (b).len == 0) || ((a).len == (b).len && (a).id == (b).id))
 
+/* a lambda used as a value: the identity of the lowered lambda function (LAMBDA_<name> enumerators are generated per unit) */
+typedef struct { int id; } lambda_t;
+static inline lambda_t lambda_value(int id) { lambda_t l; l.id = id; return l; }
+
 typedef enum { QtDebugMsg = 0, QtWarningMsg = 1, QtCriticalMsg = 2, QtFatalMsg = 3, QtInfoMsg = 4 } QtMsgType;
 #define E_QtMsgType_QtDebugMsg QtDebugMsg
 #define E_QtMsgType_QtWarningMsg QtWarningMsg
